@@ -301,6 +301,13 @@ def run_type(i, label, spec, tier, st):
         seen = set()
         for s in sk:
             check_one(case, method, copy.deepcopy(s), st, optkey, "skeleton", 0)
+            # every object of the skeleton with one key removed (missing properties next to valid ones)
+            for path in positions(s):
+                cur = get_at(s, path) if path else s
+                if isinstance(cur, dict):
+                    for k in cur:
+                        m = {kk: vv for kk, vv in cur.items() if kk != k}
+                        check_one(case, method, copy.deepcopy(set_at(s, path, m) if path else m), st, optkey, "dropkey", len(path))
             for path in positions(s):
                 for wkind, mk in WILD:
                     key = (repr(path), wkind, len(path) and repr(s)[:40])
